@@ -61,7 +61,7 @@ class ZygotePool:
                 self.close()
                 raise HarnessError("zygote imported pycaption from %s, expected under %s" % (got, want))
 
-    def submit(self, seed, job, timeout=90.0):
+    def submit(self, seed, job, timeout=240.0):
         s = socket.socket(socket.AF_UNIX, socket.SOCK_STREAM)
         s.settimeout(timeout)
         try:
